@@ -29,6 +29,9 @@ def choice_bindings(t):
         if e['k'] == 'Match':
             for a in e['arms']: rec_pat(a['pat'])
         if e['k'] == 'Let': rec_pat(e['pat'])
+        if e['k'] == 'Block':
+            for st in e['stmts']:
+                if st['k'] == 'Let': rec_pat(st['pat'])          # `let BDD::Choice(l, _, r) = root.as_ref() else { return .. };`
     return out
 
 def root_var(e):
@@ -64,6 +67,11 @@ def stmts_in_order_flat(block):
                 s2 = dict(s); s2['init'] = b['expr']
                 out.append(s2)
                 continue
+        if s['k'] == 'Expr':
+            b = s['expr']
+            while b['k'] in ('Use', 'NeverToAny'): b = b['source']
+            if b['k'] == 'Block':          # a nested plain block (one copy of an unrolled loop body): its statements, in order
+                out.extend(stmts_in_order_flat(b)); continue
         out.append(s)
     return out
 
@@ -120,7 +128,7 @@ def guards_as_branches(t):
     if t is None: return None
     if id(t) not in _GAB:
         import facts as _facts
-        u = dict(t); u['body'] = _facts.returns_as_match(t['body']); _GAB[id(t)] = (t, u)
+        u = dict(t); u['body'] = _facts.unroll_array_loops(_facts.returns_as_match(t['body'])); _GAB[id(t)] = (t, u)
     return _GAB[id(t)][1]
 
 # ------------------------------------------------------------------------------------------------ X1
@@ -801,6 +809,11 @@ def rule_X3(F, R):
             if d in ('std::ops::Deref::deref', 'std::iter::Iterator::map', 'std::iter::Iterator::cloned', 'std::iter::Iterator::collect', 'std::clone::Clone::clone',
                      'std::iter::IntoIterator::into_iter', 'std::iter::Iterator::copied') or c in ('core::slice::<impl [T]>::iter', 'std::slice::<impl [T]>::to_vec'):
                 return dom_of(e['args'][0])
+            if d == 'std::iter::Iterator::chain' and len(e['args']) == 2:
+                # seq.iter().chain(once(x)): one longer
+                a_ = dom_of(e['args'][0]); b_ = strip(e['args'][1])
+                if isinstance(a_, int) and b_['k'] == 'Call' and (callee_name(b_) or '').split('::')[-1] == 'once' and (callee_name(b_) or '').startswith(('std::iter::', 'core::iter::')): return a_ + 1
+                return None
             if c in ('std::vec::Vec::new', 'std::vec::Vec::with_capacity'): return ('fresh', 0)
             if c in ('std::vec::from_elem', 'alloc::vec::from_elem') and len(e['args']) == 2:      # vec![x; seq.len()]
                 n = strip(e['args'][1])
@@ -823,6 +836,15 @@ def rule_X3(F, R):
             if q['k'] == 'Binding' and s['init'] is not None:
                 d = dom_of(s['init'])
                 if d is not None: dom[q['var']] = d
+            elif q['k'] == 'Leaf' and 'adt' not in q and s['init'] is not None:
+                # `let (titles, widths) = pairs.unzip();`: two sequences as long as the iterator of pairs
+                i0 = strip(s['init'])
+                if i0['k'] == 'Call' and callee_decl(i0) == 'std::iter::Iterator::unzip' and i0['args']:
+                    d = dom_of(i0['args'][0])
+                    if isinstance(d, int):
+                        for sp in q['subs']:
+                            b_ = unwrap_pat(sp['pat'])
+                            if b_['k'] == 'Binding': dom[b_['var']] = d
             return
         e = s['expr']
         while e['k'] in ('Use', 'NeverToAny') or (e['k'] == 'Block' and not e['stmts'] and e['expr'] is not None): e = e['source'] if e['k'] != 'Block' else e['expr']
@@ -1896,10 +1918,22 @@ def arm_variant_bindings(arm):
     rec(arm['pat'])
     return out
 
-def visited_vars(body, is_use):
-    """variables of the arm that reach a `use` either directly or as the subject of a for-loop whose body contains a use"""
+def visited_vars(body, is_use, walker=None, crate=None):
+    """variables of the arm that reach a `use` either directly or as the subject of a for-loop whose body contains a use - or of a
+    `flat_map` / `map` / `for_each` whose function is the walker itself (`f.iter().flat_map(Self::nodes_recursive)`) or a closure calling it"""
     seen = set()
     for e in walk(body):
+        if walker is not None and e['k'] == 'Call' and callee_decl(e) in ('std::iter::Iterator::flat_map', 'std::iter::Iterator::map', 'std::iter::Iterator::for_each') and len(e['args']) == 2:
+            f_ = strip(e['args'][1]); hit = False
+            if f_['k'] == 'ZstLiteral' and 'fn' in f_ and canon(f_['fn'].get('res') or f_['fn']['def']) == walker: hit = True
+            if f_['k'] == 'Closure' and crate is not None:
+                ct_ = crate.ithir.get(canon(f_['def']))
+                if ct_ is not None and len(ct_['params']) == 2:
+                    pv_ = unwrap_pat(ct_['params'][1]['pat']).get('var')
+                    hit = any(x['k'] == 'Call' and callee_name(x) == walker and any(root_var(a_) == pv_ for a_ in x['args']) for x in walk(ct_['body']))
+            if hit:
+                for x in walk(e['args'][0]):
+                    if x['k'] in ('VarRef', 'UpvarRef'): seen.add(x['var'])
         if is_use(e):
             for x in walk(e):
                 if x['k'] in ('VarRef', 'UpvarRef'): seen.add(x['var'])
@@ -1933,7 +1967,7 @@ def rule_X6(F, R, parts=('coverage', 'labels')):
             for a in arms:
                 vb = arm_variant_bindings(a)
                 if not vb: continue
-                seen = visited_vars(a['body'], is_use)
+                seen = visited_vars(a['body'], is_use, walker if what == 'nodes' else None, lib)
                 for variant, b in vb.items():
                     cov.setdefault(variant, set()).update(i for i, v in b.items() if v in seen)
             break
@@ -2366,9 +2400,11 @@ def row_text(binc, t, k):
         e = peel(e)
         k_ = e['k']
         if k_ == 'Literal' and e.get('lit') == 'Str': return e['value']
+        if k_ == 'Literal' and e.get('lit') == 'Char': return e['value'] if isinstance(e['value'], str) else chr(int(e['value']))
         if k_ in ('VarRef', 'UpvarRef'):
             v = env.get(e['var'])
             if isinstance(v, str): return v
+            if isinstance(v, list) and v and v[0] == 'cell': return v[1]          # a line under construction (`let mut line = String::from("|")`)
             raise _RowUndec('text of %s' % e['var'].split('#')[0])
         if k_ == 'Match' and root_var(e['scrutinee']) == result_p: return '\u00abR\u00bb'
         if k_ == 'Block':
@@ -2442,6 +2478,10 @@ def row_text(binc, t, k):
                         for f_ in (ev_str, ev_list):
                             try: env[q['var']] = f_(st['init'], env); break
                             except _RowUndec: pass
+                        if q.get('mutable') and isinstance(env.get(q['var']), str): env[q['var']] = ['cell', env[q['var']]]      # appended to below, also inside loops
+                        if q.get('mutable') and q['var'] not in env:
+                            i0_ = peel(st['init'])
+                            if i0_['k'] == 'Call' and (callee_name(i0_) or '') in ('std::string::String::new', 'std::string::String::with_capacity'): env[q['var']] = ['cell', '']
                 else: run(st['expr'], env)
             if e.get('expr') is not None: run(e['expr'], env)
             return
@@ -2469,6 +2509,10 @@ def row_text(binc, t, k):
                 out.append(ev_str(e['args'][-1], env)); return
             if cn.endswith('Result::unwrap') or cn.endswith('Result::expect'):
                 run(e['args'][0], env); return
+            if cn in ('std::string::String::push_str', 'std::string::String::push') and len(e['args']) == 2:
+                cell = env.get(root_var(e['args'][0]))
+                if isinstance(cell, list) and cell and cell[0] == 'cell': cell[1] += ev_str(e['args'][1], env); return
+                raise _RowUndec('text appended to %s' % pp(e['args'][0])[:30])
             return
         if k_ in ('Tuple', 'Assign', 'AssignOp', 'Adt', 'Literal'): return
         if k_ == 'If' or k_ == 'Loop' or k_ == 'Match': raise _RowUndec('control flow %s in the row printer' % k_)
